@@ -226,8 +226,83 @@ static void hello()
   mpii::emit_line(h);
 }
 
+static double cpu_now()
+{
+  struct timespec ts;
+  clock_gettime(CLOCK_PROCESS_CPUTIME_ID, &ts);
+  return static_cast<double>(ts.tv_sec) * 1e3 + static_cast<double>(ts.tv_nsec) / 1e6;
+}
+
+/* ---- engine and platform ---- */
+static std::vector<std::string> default_args()
+{
+  return {"mpi_interp", "--cfg=smpi/errors-are-fatal:no", "--cfg=smpi/simulate-computation:no", "--cfg=smpi/privatization:no",
+          "--log=xbt_cfg.thres:warning", "--log=smpi_config.thres:warning"};
+}
+
+static std::vector<sg4::Host*> build_star(sg4::Engine& e, int nhosts)
+{
+  auto* cluster       = e.get_netzone_root()->add_netzone_star("cluster");
+  const sg4::Link* bb = cluster->add_link("backbone", "10Gbps")->set_latency("10us");
+  std::vector<sg4::Host*> all;
+  for (int i = 0; i < nhosts; i++) {
+    std::string name     = "h" + std::to_string(i);
+    sg4::Host* host      = cluster->add_host(name, "1Gf");
+    const sg4::Link* lnk = cluster->add_link(name + "_link", "1Gbps")->set_latency("20us");
+    cluster->add_route(host, nullptr, {sg4::LinkInRoute(lnk), sg4::LinkInRoute(bb)}, true);
+    all.push_back(host);
+  }
+  cluster->seal();
+  e.get_netzone_root()->seal();
+  return all;
+}
+
+static sg4::Engine* make_engine(std::vector<std::string>& args)
+{
+  std::vector<char*> argv;
+  for (auto& a : args)
+    argv.push_back(a.data());
+  argv.push_back(nullptr);
+  int argc = static_cast<int>(args.size());
+  smpi_init_options(); // declare the smpi/ configuration items before the command line is parsed
+  return new sg4::Engine(&argc, argv.data());
+}
+
+/* Server mode: the engine and the default platform (a star of PRE_HOSTS hosts) are built ONCE in the server, before the
+ * per-case fork: in this sandbox the copy-on-write page faults of a forked child cost 5-10x more than the same work in a
+ * fresh process (engine + platform: 50-150 ms of CPU per case when done after the fork).  Cases that need another
+ * platform or a non-smpi configuration item cannot use it (exit 65): vf/mpi.py sends them to a second server started
+ * with MPI_INTERP_FRESH=1, which builds everything after the fork.  `mpi_interp <file>` always builds everything. */
+static int PRE_HOSTS             = getenv("MPI_INTERP_PRE_HOSTS") ? atoi(getenv("MPI_INTERP_PRE_HOSTS")) : 128;
+static sg4::Engine* pre_engine   = nullptr;
+static std::vector<sg4::Host*> pre_hosts;
+
+static void preload()
+{
+  if (getenv("MPI_INTERP_FRESH") != nullptr)
+    return;
+  static std::vector<std::string> args = default_args();
+  pre_engine                           = make_engine(args);
+  pre_hosts                            = build_star(*pre_engine, PRE_HOSTS);
+  pre_engine->set_default_comm_data_copy_callback(smpi_comm_copy_buffer_callback);
+}
+
+static bool needs_fresh_engine(const json& kase)
+{
+  if (kase.contains("platform") && kase.at("platform").is_string())
+    return true;
+  if (kase.value("nhosts", 1) > PRE_HOSTS)
+    return true;
+  if (kase.contains("cfg"))
+    for (auto const& c : kase.at("cfg"))
+      if (c.get<std::string>().rfind("smpi/", 0) != 0)
+        return true;
+  return kase.value("fresh", false);
+}
+
 static int run_case(const std::string& text)
 {
+  double t0 = cpu_now();
   json kase;
   try {
     kase = json::parse(text);
@@ -239,66 +314,67 @@ static int run_case(const std::string& text)
     int np = kase.at("np").get<int>();
     if (np < 1 || np > 4096)
       throw mpii::BadCase("np out of range");
-    std::vector<std::string> args = {"mpi_interp", "--cfg=smpi/errors-are-fatal:no", "--cfg=smpi/simulate-computation:no",
-                                     "--cfg=smpi/privatization:no", "--log=xbt_cfg.thres:warning",
-                                     "--log=smpi_config.thres:warning"};
-    if (kase.contains("cfg"))
-      for (auto const& c : kase.at("cfg"))
-        args.push_back("--cfg=" + c.get<std::string>());
-    if (kase.contains("log"))
-      for (auto const& c : kase.at("log"))
-        args.push_back("--log=" + c.get<std::string>());
-    std::vector<char*> argv;
-    for (auto& a : args)
-      argv.push_back(a.data());
-    argv.push_back(nullptr);
-    int argc = static_cast<int>(args.size());
-
-    smpi_init_options(); // declare the smpi/ configuration items before the command line is parsed
-    sg4::Engine e(&argc, argv.data());
-
+    double t1 = cpu_now();
+    sg4::Engine* e;
     std::vector<sg4::Host*> hosts;
-    if (kase.contains("platform") && kase.at("platform").is_string()) {
-      e.load_platform(kase.at("platform").get<std::string>());
-      std::vector<sg4::Host*> all = e.get_all_hosts();
-      if (kase.contains("hosts")) {
-        all.clear();
-        for (auto const& h : kase.at("hosts"))
-          all.push_back(e.host_by_name(h.get<std::string>()));
+    if (pre_engine != nullptr) {
+      if (needs_fresh_engine(kase)) {
+        fprintf(stderr, "mpi_interp: this case needs its own engine (platform / non-smpi cfg): use the MPI_INTERP_FRESH=1 server\n");
+        return 65;
+      }
+      e = pre_engine;
+      if (kase.contains("cfg"))
+        for (auto const& c : kase.at("cfg"))
+          sg4::Engine::set_config(c.get<std::string>());
+      if (kase.contains("log"))
+        for (auto const& c : kase.at("log"))
+          xbt_log_control_set(c.get<std::string>().c_str());
+      int nhosts = std::min(kase.value("nhosts", np), PRE_HOSTS);
+      for (int i = 0; i < np; i++)
+        hosts.push_back(pre_hosts[i % nhosts]);
+    } else {
+      std::vector<std::string> args = default_args();
+      if (kase.contains("cfg"))
+        for (auto const& c : kase.at("cfg"))
+          args.push_back("--cfg=" + c.get<std::string>());
+      if (kase.contains("log"))
+        for (auto const& c : kase.at("log"))
+          args.push_back("--log=" + c.get<std::string>());
+      e = make_engine(args);
+      std::vector<sg4::Host*> all;
+      if (kase.contains("platform") && kase.at("platform").is_string()) {
+        e->load_platform(kase.at("platform").get<std::string>());
+        all = e->get_all_hosts();
+        if (kase.contains("hosts")) {
+          all.clear();
+          for (auto const& h : kase.at("hosts"))
+            all.push_back(e->host_by_name(h.get<std::string>()));
+        }
+      } else {
+        all = build_star(*e, kase.value("nhosts", np));
       }
       if (all.empty())
         throw mpii::BadCase("no host");
       for (int i = 0; i < np; i++)
         hosts.push_back(all[i % all.size()]);
-    } else {
-      int nhosts    = kase.value("nhosts", np);
-      auto* cluster = e.get_netzone_root()->add_netzone_star("cluster");
-      const sg4::Link* bb = cluster->add_link("backbone", "10Gbps")->set_latency("10us");
-      std::vector<sg4::Host*> all;
-      for (int i = 0; i < nhosts; i++) {
-        std::string name     = "h" + std::to_string(i);
-        sg4::Host* host      = cluster->add_host(name, "1Gf");
-        const sg4::Link* lnk = cluster->add_link(name + "_link", "1Gbps")->set_latency("20us");
-        cluster->add_route(host, nullptr, {sg4::LinkInRoute(lnk), sg4::LinkInRoute(bb)}, true);
-        all.push_back(host);
-      }
-      cluster->seal();
-      e.get_netzone_root()->seal();
-      for (int i = 0; i < np; i++)
-        hosts.push_back(all[i % all.size()]);
+      e->set_default_comm_data_copy_callback(smpi_comm_copy_buffer_callback);
     }
-    e.set_default_comm_data_copy_callback(smpi_comm_copy_buffer_callback);
 
+    double t2 = cpu_now();
     SMPI_init();
     mpii::install_crash_reporting(); // after the engine: SimGrid installs its own SIGSEGV handler (stack overflow message)
     if (kase.value("hello", false))
       hello();
     const json* kp = &kase;
     SMPI_app_instance_start("app", [kp]() { mpii::rank_main(*kp); }, hosts);
-    e.run();
-    mpii::emit_line(json{{"k", "end"}, {"t", e.get_clock()}});
+    double t3 = cpu_now();
+    e->run();
+    double t4 = cpu_now();
+    /* cpu: milliseconds of CPU spent in [parsing the case, engine + platform creation, SMPI_init + actor creation, the simulation] */
+    mpii::emit_line(json{{"k", "end"}, {"t", e->get_clock()}, {"cpu", {t1 - t0, t2 - t1, t3 - t2, t4 - t3}}});
     mpii::flush_all();
     SMPI_finalize();
+    /* the engine is not destroyed: the process exits right after */
   } catch (mpii::BadCase const& e) {
     mpii::flush_all();
     fprintf(stderr, "mpi_interp: bad case: %s\n", e.what());
@@ -313,5 +389,5 @@ static int run_case(const std::string& text)
 
 int main(int argc, char** argv)
 {
-  return vf_main(argc, argv, run_case);
+  return vf_main(argc, argv, run_case, preload);
 }
